@@ -64,7 +64,7 @@ int main(int argc, char** argv)
     fprintf(out, "%s\n", vj::dump(rec).c_str());
     fclose(out);
     next = (size_t)cur[0] + 1;
-    if (++ncrash > 200) { fprintf(stderr, "too many crashes\n"); return 4; }
+    if (++ncrash > (int)cases.size()) { fprintf(stderr, "too many crashes\n"); return 4; }
   }
   fprintf(stderr, "{\"cases\":%zu,\"crashes\":%d}\n", cases.size(), ncrash);
   return 0;
